@@ -136,6 +136,7 @@ fn ki8_small_entry_points() {
     // undermine: any subvert value
     let sub: i32 = kani::any();
     assert!(undermine(&mut strm, sub) == ReturnCode::Ok);
+    assert!(strm.state.flags.contains(Flags::SANE), "distance checking stays on: the mode that accepts invalid distances is not implemented, the decoder panics where it would start");
     // mark: never aborts, encodes `back` and the progress inside a block
     strm.state.back = kani::any::<usize>() % 0x8000;
     strm.state.length = kani::any::<usize>() % 65536;
@@ -179,11 +180,17 @@ fn ki8_sync() {
     let mut state = typed_state(&mut win, wrap, Mode::Len);
     let hdr_seen: bool = kani::any();
     state.gzip_flags = if hdr_seen { 0 } else { -1 };
-    // the bit register: empty, a few stray bits, or exactly one whole byte
+    // the bit register: empty, a few stray bits, exactly one whole byte, or stray bits below a whole byte (the stray
+    // bits are what is left of a partially consumed byte: zlib discards them, `hold >>= bits & 7`)
     let nb: u8 = kani::any();
-    kani::assume(nb == 0 || nb == 5 || nb == 8);
+    kani::assume(nb == 0 || nb == 5 || nb == 8 || nb == 13);
     let rv: u8 = kani::any();
-    state.bit_reader.prime(nb, rv as u64);
+    let stray: u8 = kani::any();
+    if nb == 13 {
+        state.bit_reader.prime(13, ((rv as u64) << 5) | (stray & 31) as u64);
+    } else {
+        state.bit_reader.prime(nb, rv as u64);
+    }
     let mut strm = typed_stream(unsafe { &mut *(&mut state as *mut State) });
     strm.next_in = input.as_mut_ptr();
     strm.avail_in = n_in;
@@ -195,7 +202,7 @@ fn ki8_sync() {
     assert!(strm.avail_in <= n_in && strm.next_in as usize == input.as_ptr() as usize + used);
     assert!(strm.total_in == 100 + used as crate::c_api::z_size);
     // reference scan over: [register byte, if a whole one is held] ++ input
-    let pre = if nb == 8 { 1 } else { 0 };
+    let pre = if nb >= 8 { 1 } else { 0 };
     let mut c = [0u8; NI + 1];
     let mut i = 0;
     while i < NI + 1 {
@@ -226,6 +233,7 @@ fn ki8_sync() {
     kani::cover!(rc == ReturnCode::Ok && used == 6);
     kani::cover!(rc == ReturnCode::DataError && n_in == 0 && nb == 8, "only the register byte to scan");
     kani::cover!(rc == ReturnCode::Ok && nb == 8 && used == 3, "marker starts in the register");
+    kani::cover!(rc == ReturnCode::Ok && nb == 13 && used == 3 && stray & 31 != 0, "marker starts in an unaligned register");
     core::mem::forget(strm);
     core::mem::forget(state);
 }
